@@ -22,6 +22,7 @@ func init() {
 			c.ruleCheckInitSkips("R-CHECKINIT-SKIP")
 			c.ruleLazyInitTrust("R-LAZY-INIT-TRUST")
 			c.ruleLazyFlags("R-LAZY-FLAGS")
+			c.ruleMemoCycle("R-MEMO-CYCLE")
 			c.ruleOneofIsInit("R-ONEOF-ISINIT")
 		},
 	})
@@ -579,6 +580,109 @@ func (c *Ctx) ruleLazyFlags(rule string) {
 				R.Check(ok, rule, fi.Key+" SetBuffer #"+itoa(i+1), P.Pos(call), "dominated by SetUnmarshalFlags(opts.flags)",
 					"a lazy buffer is published on a path that did not record the current decode's flags: stale flags from an earlier decode (e.g. UnmarshalCheckRequired) would make checkInitialized trust a buffer that was decoded with AllowPartial")
 			}
+		}
+	}
+}
+
+// ---------------------------------------------------------------- R-MEMO-CYCLE
+
+// A predicate over the (possibly cyclic) message graph that is memoised in a
+// shared map must only cache definitive answers. While a traversal is in
+// progress a negative answer for an inner message may depend on nodes that
+// are still being visited; caching it (or exposing an in-progress placeholder
+// that other lookups read as "false") makes a message look free of required
+// fields for ever.
+func (c *Ctx) ruleMemoCycle(rule string) {
+	R, P := c.R, c.P
+	R.Rule(rule, "for every package-level sync.Map of internal/impl that memoises a boolean predicate: every Store writes a bool (no in-progress placeholder is ever visible in the shared map), and a function that takes part in the recursion over the message graph stores nothing but the constant true (negative answers are cached only by the non-recursive root, after the traversal has completed)", 2)
+	pk := P.Pkg("internal/impl")
+	if pk == nil {
+		return
+	}
+	// memo maps: package-level sync.Map vars with at least one bool-typed Store
+	type storeSite struct {
+		fi   *FuncInfo
+		call *ast.CallExpr
+	}
+	stores := map[types.Object][]storeSite{}
+	for _, fi := range P.FuncsIn("internal/impl") {
+		if fi.Decl.Body == nil {
+			continue
+		}
+		info := fi.Info()
+		walkAll(fi.Decl.Body, func(n ast.Node) bool {
+			call, ok := n.(*ast.CallExpr)
+			if !ok || calleeKey(info, call) != "sync.(*Map).Store" || len(call.Args) != 2 {
+				return true
+			}
+			se := call.Fun.(*ast.SelectorExpr)
+			if v, ok := objOf(info, se.X).(*types.Var); ok && v.Parent() == v.Pkg().Scope() {
+				stores[v] = append(stores[v], storeSite{fi, call})
+			}
+			return true
+		})
+	}
+	// recursion: static call cycles inside the package
+	callees := map[string][]string{}
+	for _, fi := range P.FuncsIn("internal/impl") {
+		if fi.Decl.Body == nil {
+			continue
+		}
+		info := fi.Info()
+		walkAll(fi.Decl.Body, func(n ast.Node) bool {
+			if call, ok := n.(*ast.CallExpr); ok {
+				if k := calleeKey(info, call); strings.HasPrefix(k, "internal/impl.") {
+					callees[fi.Key] = append(callees[fi.Key], k)
+				}
+			}
+			return true
+		})
+	}
+	recursive := func(key string) bool {
+		seen := map[string]bool{}
+		var visit func(k string) bool
+		visit = func(k string) bool {
+			for _, n := range callees[k] {
+				if n == key {
+					return true
+				}
+				if !seen[n] {
+					seen[n] = true
+					if visit(n) {
+						return true
+					}
+				}
+			}
+			return false
+		}
+		return visit(key)
+	}
+	for v, sites := range stores {
+		isPredicate := false
+		for _, s := range sites {
+			if b, ok := s.fi.Info().TypeOf(s.call.Args[1]).Underlying().(*types.Basic); ok && b.Info()&types.IsBoolean != 0 {
+				isPredicate = true
+			}
+		}
+		if !isPredicate {
+			continue
+		}
+		for i, s := range sites {
+			info := s.fi.Info()
+			construct := "internal/impl." + v.Name() + " store #" + itoa(i+1) + " in " + s.fi.Obj.Name()
+			val := s.call.Args[1]
+			b, isBool := info.TypeOf(val).Underlying().(*types.Basic)
+			if !isBool || b.Info()&types.IsBoolean == 0 {
+				R.Bad(rule, construct, P.Pos(s.call), "a placeholder that is not a boolean is stored in the shared memo: lookups made while the traversal is in progress read it as `no init check needed`, and inner messages of a cycle are then cached as such")
+				continue
+			}
+			if recursive(s.fi.Key) {
+				if cv, ok := constBool(info, val); !ok || !cv {
+					R.Bad(rule, construct, P.Pos(s.call), "a function that takes part in the recursion over the message graph caches a possibly negative answer: for a message first reached through a cycle that answer was computed from a partial traversal")
+					continue
+				}
+			}
+			R.OK(rule, construct, P.Pos(s.call), "definitive answer")
 		}
 	}
 }
